@@ -845,6 +845,11 @@ class _Bad(Exception):
     pass
 
 
+def is_name(t):
+    """IDENTIFIER of the Rust reference restricted to ASCII, minus the three words Cargo reserves."""
+    return t not in ('all', 'any', 'not') and t.isascii() and (t[:1].isalpha() or t[:1] == '_') and t.replace('_', 'a').isalnum()
+
+
 def ref_parse(toks, lenient, kwident=False):
     """Rust reference grammar: pred := IDENT | IDENT '=' STRING | all(list?) | any(list?) | not(pred);
        all/any/not are reserved (Cargo's parser; pinned by cargotests 'not(any)').
@@ -868,7 +873,7 @@ def ref_parse(toks, lenient, kwident=False):
             if peek() == '=':
                 take()
                 s = take()
-                if s not in ('"x"', '""'):
+                if not s.startswith('"'):
                     raise _Bad()
                 return ('eq', t, s[1:-1])
             return ('id', t)
@@ -895,11 +900,11 @@ def ref_parse(toks, lenient, kwident=False):
                 take()
             take(')')
             return ('not', x)
-        if t in ('a', 'b'):
+        if is_name(t):
             if peek() == '=':
                 take()
                 s = take()
-                if s not in ('"x"', '""'):
+                if not s.startswith('"'):
                     raise _Bad()
                 return ('eq', t, s[1:-1])
             return ('id', t)
@@ -1096,6 +1101,298 @@ def cfg_str_worker(arg):
     return out, stats
 
 
+# -----------------------------------------------------------------------------------------------------
+# cfg, character level: white space between tokens, string literals, pieces
+# -----------------------------------------------------------------------------------------------------
+# What a token is comes from the two grammars a cfg() string is written for: Cargo's cargo-platform tokenizer and the
+# Rust reference (conditional compilation / tokens).  Both: punctuation ( ) , = ; IDENTIFIER = [A-Za-z_][A-Za-z0-9_]* ;
+# a string literal runs from a quote to the NEXT quote, whatever is in between (a literal that is never closed is an
+# error); U+0020 between tokens is skipped.  They differ on other white space between tokens: rustc skips every
+# Pattern_White_Space character, Cargo's tokenizer reports it as an unexpected character.  So for a text that is
+# well-formed in the rustc reading but contains such a character outside a literal, either answer of a reading is
+# accepted (the structural value, or MesonException) - never another value; a text with U+0020 only has one reading.
+WS_CARGO = frozenset(' ')
+WS_RUST = frozenset('\t\n\x0b\x0c\r \x85\u200e\u200f\u2028\u2029')
+SEPCHARS = frozenset('(),= \t\n\r')
+_IDCH = frozenset('abcdefghijklmnopqrstuvwxyzABCDEFGHIJKLMNOPQRSTUVWXYZ_0123456789')
+
+
+def ref_lex(text, ws):
+    """-> (tokens, None) | (None, 'unterminated' | 'char').  Literals keep their quotes: '"x y"'."""
+    toks = []
+    i, n = 0, len(text)
+    while i < n:
+        c = text[i]
+        if c in ws:
+            i += 1
+        elif c in '(),=':
+            toks.append(c)
+            i += 1
+        elif c == '"':
+            j = text.find('"', i + 1)
+            if j < 0:
+                return None, 'unterminated'
+            toks.append(text[i:j + 1])
+            i = j + 1
+        elif c in _IDCH and not c.isdigit():
+            j = i + 1
+            while j < n and text[j] in _IDCH:
+                j += 1
+            toks.append(text[i:j])
+            i = j
+        else:
+            return None, 'char'
+    return toks, None
+
+
+def has_sep_literal(toks):
+    return any(t[0] == '"' and SEPCHARS & set(t[1:-1]) for t in toks)
+
+
+def classify_text(text):
+    """-> (kind, data).  kind: 'wf' (tree, strict) | 'skip' | 'kw' (rustc-reading tree) | 'bad' (reason)."""
+    tr, er = ref_lex(text, WS_RUST)
+    if tr is None:
+        return 'bad', er
+    strict = ref_lex(text, WS_CARGO)[0] is not None        # no white space but U+0020 outside literals: one reading only
+    tree = ref_parse(tr, False)
+    if tree is not None:
+        return 'wf', (tree, strict, has_sep_literal(tr))
+    if ref_parse(tr, True) is not None:
+        return 'skip', None
+    alt = ref_parse(tr, False, kwident=True)
+    if alt is not None:
+        return 'kw', alt
+    return 'bad', 'structure-sep-literal' if has_sep_literal(tr) else 'structure'
+
+
+def ref_eval_text(text, c):
+    """Value of a text in the rustc reading (a bare all/any/not is a name there), or None when it is not an expression."""
+    kind, data = classify_text(text)
+    return ref_eval(data[0], c) if kind == 'wf' else ref_eval(data, c) if kind == 'kw' else None
+
+
+K_UNTERM = 'C20:cfg:unterminated-string-accepted'
+K_SEPREJ = 'C20:cfg:string-with-separator-rejected'
+K_SEPVAL = 'C20:cfg:string-with-separator-misevaluated'
+K_SEPACC = 'C20:cfg:string-with-separator-malformed-accepted'
+
+
+def bad_key(r, wellformed, sep_literal=False):
+    if r[0] == 'exc':
+        return 'C20:cfg:wrong-exception:%s' % r[1]
+    if r[0] == 'nonbool':
+        return 'C20:cfg:nonbool'
+    if wellformed:
+        if sep_literal:
+            return K_SEPVAL if r[0] == 'val' else K_SEPREJ
+        return 'C20:cfg:misevaluated' if r[0] == 'val' else 'C20:cfg:wellformed-rejected'
+    return 'C20:cfg:malformed-accepted'
+
+
+def note(out, cnt, key, text, c, accept, r):
+    cnt[key] = cnt.get(key, 0) + 1
+    if cnt[key] <= 6:
+        out.append((key, text, dict(c), accept, r))
+
+
+def check_text(text, cfgs_wf, cfgs_bad, out, cnt, stats):
+    """One text through the public entry point against the reference reading(s)."""
+    kind, data = classify_text(text)
+    stats['texts'] += 1
+    if kind == 'skip':
+        stats['skipped'] += 1
+        return
+    if kind == 'wf':
+        tree, strict, sep = data
+        stats['wf'] += 1
+        stats['wf_two_readings'] += not strict
+        stats['wf_sep_literal'] += sep
+        for c in cfgs_wf:
+            stats['evals'] += 1
+            r = impl_cfg(text, c)
+            e = ref_eval(tree, c)
+            if (r[0] == 'val' and r[1] is e) or (r[0] == 'raise' and not strict):
+                continue
+            note(out, cnt, bad_key(r, True, sep), text, c, [e] if strict else [e, 'raise'], r)
+        return
+    if kind == 'kw':
+        stats['skipped'] += 1
+        for c in cfgs_bad:
+            stats['evals'] += 1
+            r = impl_cfg(text, c)
+            e = ref_eval(data, c)
+            if r[0] == 'raise' or (r[0] == 'val' and r[1] is e):
+                continue
+            note(out, cnt, 'C20:cfg:keyword-as-name:' + r[0], text, c, [e, 'raise'], r)
+        return
+    stats['malformed'] += 1
+    stats['unterminated'] += data == 'unterminated'
+    for c in cfgs_bad:
+        stats['evals'] += 1
+        r = impl_cfg(text, c)
+        if r[0] == 'raise':
+            stats['raised'] += 1
+            continue
+        key = bad_key(r, False)
+        if r[0] == 'val' and data == 'structure-sep-literal':
+            key = K_SEPACC
+        if r[0] == 'val' and data == 'unterminated':
+            # classifier of the registered defect (never the oracle): the quote that opens the unclosed literal is
+            # dropped, the rest is read as if the quote were a blank
+            k = text.rfind('"')
+            t2 = text[:k] + ' ' + text[k + 1:]
+            if ref_eval_text(t2, c) is r[1]:
+                key = K_UNTERM
+            elif has_sep_literal(ref_lex(t2, WS_RUST)[0] or []):
+                key = K_SEPACC                     # both at once: filed under the class of the closed literal
+        note(out, cnt, key, text, c, ['raise'], r)
+
+
+GAPS = ['', ' ', '  ', '\t', '\n', '\r\n', '\t \n']
+GAP_NAME = {'': 'nothing', ' ': 'space', '  ': 'two-spaces', '\t': 'tab', '\n': 'newline', '\r\n': 'crlf', '\t \n': 'mixed'}
+CFG5 = [0, 1, 7, 8, 9]        # {}, {b:''}, {a:'',b:'y'}, {a:'x'}, {a:'x',b:''}: every atom true and false, any two atoms told apart
+
+
+def gap_layouts(toks, maxdev, manifest_dev):
+    """Texts of one token sequence: n+1 gaps (before the first, between, after the last token).  Two base layouts
+       (compact: every gap empty; manifest: 'all(a, b = "")'), every choice of <= bound gaps filled with every other
+       filler, and every filler in all gaps at once.  In a well-formed expression no two words are adjacent, so an
+       empty gap is always lexically possible.  -> [(text, gaps)] without duplicates."""
+    n = len(toks)
+    compact = [''] * (n + 1)
+    manifest = list(compact)
+    for k, t in enumerate(toks):
+        if t == ',':
+            manifest[k + 1] = ' '
+        elif t == '=':
+            manifest[k] = manifest[k + 1] = ' '
+    seen = set()
+    res = []
+
+    def emit(g):
+        text = ''.join(g[k] + toks[k] for k in range(n)) + g[n]
+        if text not in seen:
+            seen.add(text)
+            res.append((text, g, ndev[0]))
+    ndev = [0]
+    for base, dev in ((compact, maxdev), (manifest, manifest_dev)):
+        ndev[0] = 0
+        emit(base)
+        for r in range(1, dev + 1):
+            for pos in itertools.combinations(range(n + 1), r):
+                for fs in itertools.product(GAPS, repeat=r):
+                    if any(f == base[q] for f, q in zip(fs, pos)):
+                        continue
+                    g = list(base)
+                    for f, q in zip(fs, pos):
+                        g[q] = f
+                    ndev[0] = r
+                    emit(g)
+    ndev[0] = -1
+    for f in GAPS:
+        emit([f] * (n + 1))
+    return res
+
+
+def new_gstats():
+    d = {'texts': 0, 'evals': 0, 'layouts_other_white_space': 0, 'nontrivial_expressions': 0, 'expressions': 0,
+         'layouts_two_deviations': 0, 'layouts_all_gaps_same': 0}
+    for f in GAPS:
+        if f.strip(' '):
+            d['evaluated:' + GAP_NAME[f]] = 0
+            d['rejected:' + GAP_NAME[f]] = 0
+    return d
+
+
+def cfg_gap_worker(arg):
+    lo, hi, maxdev, manifest_dev, cfg_idx = arg
+    out, cnt, stats, wit = [], {}, new_gstats(), {}
+    full = sum(1 << k for k in cfg_idx)
+    for t in D[lo:hi]:
+        toks = toks_of(t)
+        exp = ref_mask(t)
+        stats['expressions'] += 1
+        stats['nontrivial_expressions'] += (exp & full) not in (0, full)
+        n = len(toks)
+        for text, g, ndev in gap_layouts(toks, maxdev, manifest_dev):
+            stats['texts'] += 1
+            other = sorted({f for f in g if f.strip(' ')})
+            strict = not other
+            stats['layouts_other_white_space'] += not strict
+            stats['layouts_two_deviations'] += ndev == 2
+            stats['layouts_all_gaps_same'] += ndev == -1
+            nval = nraise = 0
+            for k in cfg_idx:
+                stats['evals'] += 1
+                c = CFGS[k]
+                r = impl_cfg(text, c)
+                e = bool((exp >> k) & 1)
+                if r[0] == 'val' and r[1] is e:
+                    nval += 1
+                elif r[0] == 'raise' and not strict:
+                    nraise += 1
+                else:
+                    note(out, cnt, bad_key(r, True), text, c, [e] if strict else [e, 'raise'], r)
+            # one kind of other white space, in interior gaps only: is it a separator for the real lexer or is it not?
+            if len(other) == 1 and not g[0].strip(' ') and not g[n].strip(' '):
+                nm = GAP_NAME[other[0]]
+                if nval == len(cfg_idx):
+                    stats['evaluated:' + nm] += 1
+                    wit.setdefault('evaluated:' + nm, text)
+                elif nraise == len(cfg_idx):
+                    stats['rejected:' + nm] += 1
+                    wit.setdefault('rejected:' + nm, text)
+    return out, cnt, stats, wit
+
+
+PIECES = ['a', 'x', 'all', 'any', 'not', '(', ')', ',', '=', '"', ' ', '\t', '\n']
+CFGB = [dict(([('a', v)] if v is not None else []) + ([('x', w)] if w is not None else [])) for v in VALS for w in (None, '')]
+CFGB_BAD = [CFGB[0], CFGB[5]]           # {} and {a: 'x', x: ''}
+
+
+def new_pstats():
+    return {'texts': 0, 'evals': 0, 'wf': 0, 'wf_two_readings': 0, 'wf_sep_literal': 0, 'skipped': 0, 'malformed': 0,
+            'unterminated': 0, 'raised': 0}
+
+
+def cfg_piece_worker(arg):
+    n, first = arg
+    out, cnt, stats = [], {}, new_pstats()
+    for rest in itertools.product(PIECES, repeat=n - 1):
+        check_text(first + ''.join(rest), CFGB, CFGB_BAD, out, cnt, stats)
+    return out, cnt, stats
+
+
+LITCHARS = ['x', ' ', '\t', ',', '(', ')', '=']
+
+
+def cfg_literal_worker(arg):
+    """name = "value" for every value over LITCHARS up to the bound, alone and inside not / all / any, two spellings;
+       the configurations give the name the value itself, its blank-stripped form and each fragment between separators
+       (so that a reading which cuts the literal at a separator shows), besides absent / "" / "x"."""
+    n, firstc = arg
+    out, cnt, stats = [], {}, new_pstats()
+    for rest in itertools.product(LITCHARS, repeat=n - 1):
+        v = firstc + ''.join(rest)
+        eq = ('eq', 'a', v)
+        frag = ''.join(ch if ch == 'x' else '\0' for ch in v).split('\0')
+        avals = []
+        for z in [None, '', 'x', v, v.strip()] + frag:
+            if z not in avals:
+                avals.append(z)
+        cfgs = [dict(([('a', z)] if z is not None else []) + ([('b', w)] if w is not None else [])) for z in avals for w in (None, '')]
+        for tree in (eq, ('not', eq), ('all', [eq]), ('any', [('id', 'b'), eq]), ('all', [eq, ('id', 'b')])):
+            toks = toks_of(tree)
+            for st in (1, 2):
+                text = render(toks, st)
+                kind, data = classify_text(text)
+                if kind != 'wf' or data[0] != tree:
+                    return 'reference lexer does not read back %r' % text
+                check_text(text, cfgs, cfgs[:2], out, cnt, stats)
+    return out, cnt, stats
+
+
 def part_cfg(ck, classes):
     global D, DEPTH_START, SMALL_N
     d0 = list(ATOMS)
@@ -1153,6 +1450,73 @@ def part_cfg(ck, classes):
     ck.require(tot['wf'] > 5000, 'well-formed branch not exercised')
     ck.require(pm['wf'] > 0, 'no mutation stayed well-formed (classifier suspicious)')
     classes.add(('cfg', 'malformed', 'raise'))
+
+    # ---- character level: the white space between tokens, string literals, pieces ----
+    cnt2 = {}
+
+    def absorb2(res, part, zero):
+        p = zero()
+        wit = {}
+        for item in res:
+            if isinstance(item, str):
+                ck.internal(item)
+            out, kc, stats = item[:3]
+            for k in stats:
+                p[k] += stats[k]
+            for k, v in (item[3] if len(item) > 3 else {}).items():
+                wit.setdefault(k, v)
+            listed = {}
+            for key, text, c, accept, r in out:
+                listed[key] = listed.get(key, 0) + 1
+                cnt2[key] = cnt2.get(key, 0) + 1
+                if cnt2[key] <= 40:
+                    ck.violation(key, 'eval_cfg(%r, %r): expected %s, observed %r' % ('cfg(' + text + ')', c, ' or '.join(
+                        'MesonException' if a == 'raise' else repr(a) for a in accept), r),
+                        {'kind': 'cfg', 'expr': text, 'cfgs': c, 'accept': accept, 'observed': list(r)})
+                else:
+                    listed[key] -= 1
+            for key, n in kc.items():
+                rest = n - listed.get(key, 0)           # beyond the listing caps
+                if rest > 0:
+                    if any(kf['key'] == key and kf.get('status') == 'known' for kf in ck.known):
+                        ck.add('known_finding_points_beyond_listing_cap', rest)
+                    else:
+                        ck.n_viol += rest
+        for k in ('evals', 'wf', 'skipped', 'malformed', 'raised'):
+            if k in p:
+                tot[k] += p[k]
+        ck.part(part, wall_s=round(time.time() - ck.t0, 1), **p)
+        return p, wit
+
+    d1n = len(d1)
+    gap_hi = ck.q(mut_hi, len(D))
+    deep_cfgs = ck.q(CFG5, list(range(16)))
+    items = chunks(0, d1n, 2, 2, 1, list(range(16))) + chunks(d1n, gap_hi, 24, 1, 1, deep_cfgs)
+    pg, wit = absorb2(pmap(cfg_gap_worker, items), 'cfg_token_gaps', new_gstats)
+    ck.part('cfg_token_gaps', fillers=[GAP_NAME[f] for f in GAPS], expressions_two_deviations=d1n, expressions_one_deviation=gap_hi - d1n,
+            configurations_depth2=len(deep_cfgs))
+    for f in GAPS:
+        nm = GAP_NAME[f]
+        if f.strip(' ') and pg['evaluated:' + nm] and pg['rejected:' + nm]:
+            a, b = wit['evaluated:' + nm], wit['rejected:' + nm]
+            ck.violation('C20:cfg:white-space-inconsistent:' + nm, 'the same white space (%s) between tokens is skipped in cfg(%r) but makes '
+                         'cfg(%r) malformed (%d layouts evaluated, %d rejected)' % (nm, a, b, pg['evaluated:' + nm], pg['rejected:' + nm]),
+                         {'kind': 'cfg-ws', 'evaluated': a, 'rejected': b})
+    ck.require(pg['layouts_other_white_space'] > 20000 and pg['layouts_two_deviations'] > 10000 and pg['layouts_all_gaps_same'] > 1000
+               and pg['nontrivial_expressions'] > 500, 'token-gap family degenerate')
+    ck.sample({'cfg_gap_layout': gap_layouts(toks_of(D[d1n + 700]), 1, 0)[40][0], 'true_in': bin(ref_mask(D[d1n + 700])).count('1'), 'of': 16})
+
+    plen = ck.q(5, 6)
+    pp, _ = absorb2(pmap(cfg_piece_worker, [(n, first) for n in range(1, plen + 1) for first in PIECES]), 'cfg_piece_strings', new_pstats)
+    ck.part('cfg_piece_strings', max_pieces=plen, alphabet=len(PIECES))
+    ck.require(pp['wf'] > 50 and pp['wf_two_readings'] > 10 and pp['unterminated'] > 1000 and pp['malformed'] > 100000,
+               'piece strings degenerate')
+    llen = ck.q(3, 4)
+    pl, _ = absorb2(pmap(cfg_literal_worker, [(n, c) for n in range(1, llen + 1) for c in LITCHARS]), 'cfg_literal_values', new_pstats)
+    ck.part('cfg_literal_values', max_chars=llen, alphabet=len(LITCHARS))
+    ck.require(pl['wf_sep_literal'] > 1000 and pl['wf'] > pl['wf_sep_literal'], 'literal values degenerate')
+    if os.environ.get('VERIF_C20_DEBUG'):
+        print('cfg character-level keys: %r' % sorted(cnt2.items()), file=sys.stderr)
     return tot
 
 
@@ -1234,11 +1598,23 @@ def replay(ck):
     elif kind == 'cfg':
         text = d['expr']
         r = impl_cfg(text, d['cfgs'])
-        print('eval_cfg(%r, %r): expected %r, observed %r' % ('cfg(' + text + ')', d['cfgs'], d['expected'], r))
-        if d['expected'] == 'MesonException':
-            bad = r[0] != 'raise'
+        if 'accept' in d:
+            print('eval_cfg(%r, %r): expected %s, observed %r' % ('cfg(' + text + ')', d['cfgs'], ' or '.join(
+                'MesonException' if a == 'raise' else repr(a) for a in d['accept']), r))
+            bad = not ((r[0] == 'raise' and 'raise' in d['accept']) or (r[0] == 'val' and any(r[1] is a for a in d['accept'])))
         else:
-            bad = not (r[0] == 'val' and r[1] is d['expected'])
+            print('eval_cfg(%r, %r): expected %r, observed %r' % ('cfg(' + text + ')', d['cfgs'], d['expected'], r))
+            if d['expected'] == 'MesonException':
+                bad = r[0] != 'raise'
+            elif isinstance(d['expected'], str) and d['expected'].startswith('MesonException or '):
+                bad = not (r[0] == 'raise' or (r[0] == 'val' and repr(r[1]) == d['expected'][18:]))
+            else:
+                bad = not (r[0] == 'val' and r[1] is d['expected'])
+    elif kind == 'cfg-ws':
+        ra = [impl_cfg(d['evaluated'], c)[0] for c in CFGS]
+        rb = [impl_cfg(d['rejected'], c)[0] for c in CFGS]
+        print('cfg(%r): %s ; cfg(%r): %s' % (d['evaluated'], sorted(set(ra)), d['rejected'], sorted(set(rb))))
+        bad = set(ra) == {'val'} and set(rb) == {'raise'}
     else:
         ck.internal('unknown replay kind %r' % kind)
     print('still violates' if bad else 'no longer violates')
